@@ -292,6 +292,8 @@ PROPS["C11"] = dict(
                  "a displaced session lingering until its next keep-alive exchange (allowed by C12) is exempt from the subscription-belongs-to-a-listed-session invariant until it has ended",
                  "node failure = NotifyGossipLeave on the survivors; the check waits (real time, up to 15 s) for the delayed record cleanup"],
     runs=[
+        # an announcement that arrives after the removal on a filter that 0-300 (thorough 1100) other sessions have used and left since
+        dict(name="late", pkg="c11", run="TestLateAnnouncement", shards=4, timeout=600),
         dict(name="regress", pkg="c11", run="TestRegress", timeout=300),
         dict(name="random", pkg="c11", run="TestRandom", checks=dict(quick=1280, thorough=12000), shards=16, timeout=dict(quick=400, thorough=2400), shrinktime="90s"),
         dict(name="nodefail", pkg="c11", run="TestNodeFailure", checks=dict(quick=48, thorough=800), shards=16, timeout=dict(quick=400, thorough=2400), shrinktime="120s"),
